@@ -443,6 +443,12 @@ def seed_problems(rows):
 
 def init_problems(rows):
     out = {}
+    try:
+        for k, v in hook_reseeds().items():
+            if not v:
+                out[k] = ["worker_init_fn does not unconditionally call self.set_rng(get_rng_from_global())"]
+    except Exception as e:
+        out["hooks"] = [f"translator: {e}"]
     for r in rows:
         p = []
         wi = r["wi"]
@@ -457,6 +463,23 @@ def init_problems(rows):
             p.append("root worker_init_fn does not re-seed the registered collators")
         if p:
             out[r["name"]] = p
+    return out
+
+
+def hook_reseeds():
+    """KDTransform.worker_init_fn / KDCollatorBase.worker_init_fn: `self.set_rng(get_rng_from_global())` as an unconditional
+    top-level statement (not under if / for / while / try / with)"""
+    from kappadata.transforms.base.kd_transform import KDTransform
+    from kappadata.collators.base.kd_collator_base import KDCollatorBase
+    out = {}
+    for cls in (KDTransform, KDCollatorBase):
+        fn = func_of(src_ast(cls), "worker_init_fn")
+        ok = False
+        if fn is not None:
+            for st in fn.body:
+                if isinstance(st, ast.Expr) and ast.unparse(st.value) == "self.set_rng(get_rng_from_global())":
+                    ok = True
+        out[cls.__name__] = ok
     return out
 
 
@@ -485,7 +508,13 @@ def emit(rows):
                     f"forwardsInner := {str(bool(wi['forwardsInner'] or wi['forwardsAll'])).lower()}, "
                     f"reseedsCollators := {str(bool(wi['reseedsCollators'])).lower()} }}")
     L.append(",\n".join(body))
-    L += ["]", "", "end KDVerif.Gen.WrapperTable", ""]
+    hk = hook_reseeds()
+    L += ["]", "",
+          "/-- `KDTransform.worker_init_fn` / `KDCollatorBase.worker_init_fn` call `self.set_rng(get_rng_from_global())` unconditionally",
+          "    (the model's `initKids` / `initCollators` presume exactly this) -/",
+          f"def transformHookReseeds : Bool := {str(hk['KDTransform']).lower()}",
+          f"def collatorHookReseeds : Bool := {str(hk['KDCollatorBase']).lower()}", "",
+          "end KDVerif.Gen.WrapperTable", ""]
     return "\n".join(L)
 
 
